@@ -31,21 +31,32 @@ SOURCES = ["include/etl/_vector/static_vector.hpp", "include/etl/_inplace_vector
            "include/etl/_type_traits/smallest_size_t.hpp"]
 RULE = ("exhaustive one-step box: static_vector of capacity 0..3 (int, a non-trivial class, and a handle class whose move "
         "assignment empties its source and has no self test), every content state over "
-        "the values {0,1,2}, every member with every position / count / value / overload; every ordered pair of content "
-        "states for copy/move construction and assignment, swap (member, free, self) and the six relational operators, each "
-        "copy followed by two rounds of changes of the source and of the copy; inplace_vector (the members it has) and stack "
-        "likewise at capacity 0..3 (int and the non-trivial class); the member inventory (api_member) of all three types at "
+        "the values {0,1,2}, every member with every position / count / value / overload, and every member that takes its "
+        "argument by reference (push_back, emplace_back, insert(pos,x), emplace(pos,x), insert(pos,n,x), resize(n,x), "
+        "push_back(back())) called with every element i of the vector itself at every position / count (these also at capacity 4 "
+        "from every state of length 2); every ordered pair of "
+        "content states for copy/move construction and assignment, swap (member, free, self) and the six relational operators, each "
+        "copy followed by two rounds of changes of the source and of the copy; a key/payload element kind (kp: operator< on the "
+        "key only, operator== on key and payload; the values 0 and 1 are equivalent and not equal, 2 is greater) for "
+        "static_vector at capacity 0..3 and stack at capacity 1 and 3: every ordered pair of content states (and every state "
+        "with itself) for the six relational operators, erase(c, value), the aliasing members (quick: that subset of the "
+        "single-object members; thorough: all); inplace_vector (the members it has) and stack "
+        "(incl. push(top()) / emplace(top()); inplace_vector: try_/unchecked_ push and emplace with element i of the vector itself) likewise at capacity 0..3 (int and the non-trivial class); the member inventory (api_member) of all three types at "
         "capacity 0 and 4; the size type at both sides of every threshold of the smallest_size_t chain (api_width: 254/255/256, "
         "65534/65535/65536, 2^32-2/2^32-1/2^32, 2^63-1) and the widths of the types it names (api_abi); deterministic walks across "
         "the size-type boundary at capacities 254/255/256 (fill to capacity-1, to capacity, one more try, back, insert/erase at "
-        "both ends, copy, compare, swap); plus seeded random histories of up to 40 operations on four live objects at "
-        "capacities {0,1,2,3,4,7}, random interleaved histories (object 0 := copy of object 1, then 2..16 single-object "
+        "both ends, copy, compare, swap, then aliasing inserts / resize / push_back(back()) at capacity-1); plus seeded random histories of up to 40 operations on four live objects at "
+        "capacities {0,1,2,3,4,7} (the aliasing members among the candidates; element kind kp where the harness instantiates it: "
+        "static_vector at capacity <= 4, stack at 1 and 3), random interleaved histories (object 0 := copy of object 1, then 2..16 single-object "
         "operations addressed to the source or the copy at random: the hypothesis shape of copy_independent) at capacities "
         "1..7, and histories of up to 10 operations from a nearly full vector at {254,255,256}.  Beyond capacity 3 "
         "nothing is exhaustive.  A line is generated only if it is valid by Tetl.C01.Spec.valid (precondition in the spec "
         "state; moved-from objects only take operations without a precondition on their contents).  A history is "
         "non-trivial when some object is non-empty after some step; distinct = distinct case text.")
-ASSUMPTIONS = ["std::vector / std::stack of libstdc++ 12 are the reference for spec validation (R2); libstdc++ 12 has no "
+ASSUMPTIONS = ["assign(n, t) with t a reference into the vector, assign(i, j) / insert(p, i, j) with iterators into the vector and "
+               "rvalue arguments that alias an element (insert(p, std::move(v[i]))) are outside the property: [sequence.reqmts] "
+               "/ [res.on.arguments] exclude them; every other member that takes a reference is run with an aliasing argument",
+               "std::vector / std::stack of libstdc++ 12 are the reference for spec validation (R2); libstdc++ 12 has no "
                "std::inplace_vector, its reference is std::vector plus the capacity test",
                "element types are modelled at the value level (naturals); the two storage implementations are exercised "
                "by the harness with int and with a class that has user-provided special members",
@@ -70,15 +81,31 @@ THEOREMS = {
     "insert_range": _STEP + [_P + "insertRange_refines", _P + "rotate_eq"],
     "move_insert": _STEP + [_P + "insertRange_refines", _P + "rotate_eq"],
     "erase": _STEP + [_P + "eraseRange_refines"], "erase_range": _STEP + [_P + "eraseRange_refines"],
-    "resize": _STEP, "resize_val": _STEP, "assign_fill": _STEP, "assign_range": _STEP, "clear": _STEP,
+    "resize": _STEP, "resize_val": _STEP,
+    # assign(n, v[i]) is excluded by [sequence.reqmts] ("t is not a reference into a"): the theorem says why it has to be
+    "assign_fill": _STEP + [_P + "assign_alias_reads_destroyed"], "assign_range": _STEP, "clear": _STEP,
     "ctor_n": _STEP, "ctor_n_val": _STEP, "ctor_range": _STEP,
     "erase_if": _STEP + [_P + "eraseIf_refines", _P + "eraseIf_keeps_handles"],
     "erase_val": _STEP + [_P + "eraseIf_refines", _P + "eraseIf_keeps_handles"],
-    "cmp": _STEP + [_P + "relOps_refines"], "swap": _STEP + [_P + "swap_refines"], "swap_free": _STEP + [_P + "swap_refines"],
+    "cmp": _STEP + [_P + "relOps_refines", _P + "relOps_refines_strict_weak", _P + "kinds_strict_weak",
+                    _P + "relOps_refines_kinds", _P + "relOps_total_order", _P + "relOps_refines_nat"], "swap": _STEP + [_P + "swap_refines"], "swap_free": _STEP + [_P + "swap_refines"],
     "copy_ctor": _STEP + [_P + "copy_independent", _P + "interleave_projection", _P + "interleave_ok"],
     "copy_assign": _STEP + [_P + "interleave_projection", _P + "interleave_ok"],
     "move_ctor": _STEP + [_P + "moved_from_static_vector", _P + "moved_from_inplace_vector", _P + "moved_from_usable"],
     "move_assign": _STEP + [_P + "moved_from_static_vector", _P + "moved_from_self", _P + "moved_from_usable"],
+    "push_alias": _STEP + [_P + "push_alias_eq", _P + "alias_spec", _P + "alias_members_generalise"],
+    "emplace_back_alias": _STEP + [_P + "push_alias_eq", _P + "alias_spec", _P + "alias_members_generalise"],
+    "push_top": _STEP + [_P + "push_alias_eq", _P + "alias_spec"],
+    "emplace_top": _STEP + [_P + "push_alias_eq", _P + "alias_spec"],
+    "insert_alias": _STEP + [_P + "insert_alias_eq", _P + "alias_spec", _P + "alias_members_generalise", _P + "rotate_eq"],
+    "emplace_alias": _STEP + [_P + "insert_alias_eq", _P + "alias_spec", _P + "alias_members_generalise", _P + "rotate_eq"],
+    "insert_fill_alias": _STEP + [_P + "insertFill_alias_eq", _P + "alias_spec", _P + "alias_members_generalise",
+                                  _P + "rotate_eq"],
+    "resize_val_alias": _STEP + [_P + "resize_alias_eq", _P + "alias_spec", _P + "alias_members_generalise"],
+    "try_push_alias": _STEP + [_P + "ipv_push_alias_eq", _P + "alias_spec", _P + "tryPush_full"],
+    "try_emplace_alias": _STEP + [_P + "ipv_push_alias_eq", _P + "alias_spec", _P + "tryPush_full"],
+    "unchecked_push_alias": _STEP + [_P + "ipv_push_alias_eq", _P + "alias_spec"],
+    "unchecked_emplace_alias": _STEP + [_P + "ipv_push_alias_eq", _P + "alias_spec"],
     "dump": [_P + "observers_refine", _P + "observers_refine_ipv_stk", _P + "observers_zero_capacity"],
     "try_push": _STEP + [_P + "tryPush_full"], "try_push_rv": _STEP + [_P + "tryPush_full"],
     "try_emplace": _STEP + [_P + "tryPush_full"], "unchecked_push": _STEP, "unchecked_push_rv": _STEP,
@@ -103,6 +130,9 @@ EMPTIED = 9998
 GENSIZE_LEAN = os.path.join(lib.LEAN, "Tetl", "C01", "GenSize.lean")
 # capacities at which the harness instantiates static_vector<HD, N> (C01_HD_CAPS in harness/c01.cpp)
 HD_CAPS = (0, 1, 2, 3, 4, 7)
+# capacities at which the harness instantiates static_vector<KP, N> / stack<KP, static_vector<KP, N>> (C01_KP_CAPS, C01_KP_STK_CAPS)
+KP_CAPS = (0, 1, 2, 3, 4)
+KP_STK_CAPS = (1, 3)
 # the thresholds of the smallest_size_t chain: the selected type is not the smallest one there (known finding)
 WIDTH_CAPS = [0, 1, 254, 255, 256, 65534, 65535, 65536, 4294967294, 4294967295, 4294967296, 9223372036854775807]
 THRESHOLDS = {255, 65535, 4294967295}
@@ -181,10 +211,13 @@ def unary_ops_exhaustive(ty, cap, d):
         for x in (0, 1, 2):
             ops.append("erase_val x=%d" % x)
         ops += ["erase_if m=2 r=0", "erase_if m=2 r=1", "erase_if m=1 r=0", "erase_if m=3 r=2", "erase_if m=5 r=4"]
+        ops += alias_ops_exhaustive(cap, d)
     elif ty == "stk":
         if room > 0:
             for x in (1, 2):
                 ops += ["push x=%d" % x, "push_rv x=%d" % x, "emplace_back x=%d" % x]
+            if n > 0:
+                ops += ["push_top", "emplace_top"]
         if n > 0:
             ops.append("pop")
     elif ty == "ipv":
@@ -192,10 +225,42 @@ def unary_ops_exhaustive(ty, cap, d):
             ops += ["try_push x=%d" % x, "try_push_rv x=%d" % x, "try_emplace x=%d" % x]
             if room > 0:
                 ops += ["unchecked_push x=%d" % x, "unchecked_push_rv x=%d" % x, "unchecked_emplace x=%d" % x]
+        for i in range(n):
+            ops += ["try_push_alias i=%d" % i, "try_emplace_alias i=%d" % i]
+            if room > 0:
+                ops += ["unchecked_push_alias i=%d" % i, "unchecked_emplace_alias i=%d" % i]
         if n > 0:
             ops.append("pop")
         ops.append("clear")
     return ops
+
+
+def alias_ops_exhaustive(cap, d):
+    """static_vector: every member that takes its argument by reference, called with every element of the vector itself
+    (`v.insert(v.begin() + pos, v[i])`), at every position / count (mirrors Tetl.C01.valid1 of the …A operations)"""
+    n = len(d)
+    room = cap - n
+    ops = []
+    if n == 0:
+        return ops
+    if room > 0:
+        ops += ["push_top", "emplace_top"]
+        for i in range(n):
+            ops += ["push_alias i=%d" % i, "emplace_back_alias i=%d" % i]
+            for p in range(n + 1):
+                ops += ["insert_alias pos=%d i=%d" % (p, i), "emplace_alias pos=%d i=%d" % (p, i)]
+    for i in range(n):
+        for p in range(n + 1):
+            for k in range(room + 1):
+                ops.append("insert_fill_alias pos=%d n=%d i=%d" % (p, k, i))
+        for k in range(cap + 1):
+            ops.append("resize_val_alias n=%d i=%d" % (k, i))
+    return ops
+
+
+# the key/payload kind differs from int only in operator< / operator== (same storage): its single-object box is the
+# members that compare elements, the aliasing members and a few plain ones
+KP_UNARY = ("erase_val", "push", "insert", "push_alias", "push_top", "insert_alias", "insert_fill_alias", "resize_val_alias")
 
 
 def build(ty, d, obj):
@@ -264,11 +329,15 @@ def boundary_histories(add):
                  "erase pos=0", "insert_fill pos=%d n=1 x=6" % (cap - 1), "copy_ctor obj=1 other=0", "cmp obj=0 other=1",
                  "pop obj=1", "cmp obj=0 other=1", "erase_range f=1 l=%d" % (cap - 1), "resize n=%d" % cap,
                  "resize_val n=%d x=3" % (cap - 2), "erase_if m=2 r=0", "assign_fill n=%d x=1" % cap, "swap obj=0 other=1",
-                 "clear obj=1", "insert_range obj=1 pos=0 xs=%s" % fmt_list(xs + [5])], "sv/boundary")
+                 "clear obj=1", "insert_range obj=1 pos=0 xs=%s" % fmt_list(xs + [5]), "pop obj=1",
+                 "insert_alias obj=1 pos=0 i=%d" % (cap - 2), "pop obj=1", "insert_alias obj=1 pos=3 i=5", "pop obj=1",
+                 "push_top obj=1", "resize_val_alias obj=1 n=%d i=1" % (cap - 3), "insert_fill_alias obj=1 pos=1 n=3 i=2"],
+                "sv/boundary")
             add([new_line("ipv", cap, kind)] + ["unchecked_push x=%d" % (i % 7) for i in range(cap - 1)]
                 + ["try_push x=9", "try_push x=4", "try_emplace x=4", "try_push_rv x=4", "copy_ctor obj=1 other=0",
                    "pop obj=0", "try_push obj=1 x=2", "try_emplace obj=0 x=3", "move_ctor obj=2 other=0", "clear obj=0",
-                   "try_push obj=0 x=1", "try_push obj=2 x=1"], "ipv/boundary")
+                   "try_push obj=0 x=1", "try_push obj=2 x=1", "try_push_alias obj=1 i=3", "pop obj=1",
+                   "unchecked_push_alias obj=1 i=2", "try_emplace_alias obj=1 i=0"], "ipv/boundary")
 
 
 def new_line(ty, cap, kind, init=None):
@@ -282,22 +351,30 @@ def new_line(ty, cap, kind, init=None):
 def exhaustive(add, thorough):
     for ty in ("sv", "stk", "ipv"):
         # the handle kind (move assignment empties its source, no self test) exists for static_vector only
-        for kind in (("int", "nt", "hd") if ty == "sv" else ("int", "nt")):
+        # and the key/payload kind (operator< on the key only: the values 0 and 1 are equivalent and not equal, 2 is
+        # greater than both) for static_vector and the stack over it
+        for kind in {"sv": ("int", "nt", "hd", "kp"), "stk": ("int", "nt", "kp"), "ipv": ("int", "nt")}[ty]:
             caps = [0, 1, 2, 3] if ty != "stk" else [0, 1, 3]
+            if kind == "kp" and ty == "stk":
+                caps = list(KP_STK_CAPS)
             for cap in caps:
                 head = new_line(ty, cap, kind)
                 states = list(lists([0, 1, 2], cap))
                 for d in states:
                     pre = build(ty, d, 0)
                     for op in unary_ops_exhaustive(ty, cap, d):
+                        if kind == "kp" and not thorough and op.split(" ")[0] not in KP_UNARY:
+                            continue
                         add([head] + pre + [op], "%s/%s" % (ty, op.split(" ")[0]))
                 pair_states = states if (cap <= 2 or thorough) else [s for s in states if 0 not in s or len(s) <= 1]
                 if kind == "hd" and not thorough:
                     pair_states = [s for s in pair_states if 2 not in s]
+                if kind == "kp":
+                    pair_states = states        # every ordered pair: equivalent-but-not-equal elements at every index
                 for d0 in pair_states:
                     for d1 in pair_states:
                         pre = build(ty, d0, 0) + build(ty, d1, 1)
-                        for op in BINARY[ty]:
+                        for op in (BINARY[ty] if kind != "kp" else ["cmp"] + (BINARY[ty][:-1] if thorough else [])):
                             lines = [head] + pre + ["%s obj=0 other=1" % op]
                             if op in ("move_ctor", "move_assign"):
                                 # the moved-from source: observe it, then give it a specified value again and use it
@@ -309,11 +386,19 @@ def exhaustive(add, thorough):
                                 # the copy (object 0); all four objects are dumped after every line
                                 lines += independence_lines(ty, cap, d1)
                             add(lines, "%s/%s" % (ty, op))
-                    for op in SELF[ty]:
+                    for op in (SELF[ty] if kind != "kp" or thorough else ["cmp"]):
                         lines = [head] + build(ty, d0, 0) + ["%s obj=0 other=0" % op]
                         if op == "move_assign":
                             lines += ["clear obj=0"] if ty == "sv" else ["copy_assign obj=0 other=2"]
                         add(lines, "%s/%s-self" % (ty, op))
+    # aliasing arguments need two distinct elements AND room for two copies to tell "read once" from "read per copy":
+    # capacity 4, every content state of length 2
+    for kind in ("int", "nt", "hd"):
+        head = new_line("sv", 4, kind)
+        for d in lists([0, 1, 2], 2):
+            if len(d) == 2:
+                for op in alias_ops_exhaustive(4, d):
+                    add([head] + build("sv", d, 0) + [op], "sv/%s" % op.split(" ")[0])
     # the other initialisation form of every type
     for kind in ("int", "nt"):
         for cap in (0, 1, 4, 255, 256):
@@ -358,13 +443,16 @@ class Mirror:
         return list(d)
 
 
+ALIAS_CANDS = ["push_alias", "emplace_back_alias", "push_top", "emplace_top", "insert_alias", "insert_alias", "emplace_alias",
+               "insert_fill_alias", "insert_fill_alias", "resize_val_alias"]
 UNARY_CANDS = {
     "sv": ["push", "push_rv", "emplace_back", "insert", "insert_rv", "emplace", "insert_fill", "insert_range", "move_insert",
            "pop", "erase", "erase_range", "resize", "resize_val", "assign_fill", "assign_range", "clear", "erase_val",
-           "erase_if", "ctor_n", "ctor_n_val", "ctor_range", "dump"],
-    "stk": ["push", "push", "push_rv", "emplace_back", "pop", "pop", "dump"],
+           "erase_if", "ctor_n", "ctor_n_val", "ctor_range", "dump"] + ALIAS_CANDS,
+    "stk": ["push", "push", "push_rv", "emplace_back", "pop", "pop", "dump", "push_top", "emplace_top"],
     "ipv": ["try_push", "try_push", "try_push_rv", "try_emplace", "unchecked_push", "unchecked_push_rv",
-            "unchecked_emplace", "pop", "pop", "clear"],
+            "unchecked_emplace", "pop", "pop", "clear", "try_push_alias", "try_emplace_alias", "unchecked_push_alias",
+            "unchecked_emplace_alias"],
 }
 
 
@@ -434,13 +522,14 @@ def rand_history(rnd, ty, cap, kind, length, big, interleave=False):
             cands = ["push", "push_rv", "emplace_back", "insert", "insert_rv", "emplace", "insert_fill", "insert_range",
                      "move_insert", "pop", "erase", "erase_range", "resize", "resize_val", "assign_fill", "assign_range",
                      "clear", "erase_val", "erase_if", "ctor_n", "ctor_n_val", "ctor_range", "copy_ctor", "move_ctor",
-                     "copy_assign", "move_assign", "swap", "swap_free", "cmp", "cmp", "dump"]
+                     "copy_assign", "move_assign", "swap", "swap_free", "cmp", "cmp", "dump"] + ALIAS_CANDS
         elif ty == "stk":
             cands = ["push", "push", "push_rv", "emplace_back", "pop", "copy_ctor", "move_ctor", "copy_assign",
-                     "move_assign", "swap", "swap_free", "cmp"]
+                     "move_assign", "swap", "swap_free", "cmp", "push_top", "emplace_top"]
         else:
             cands = ["try_push", "try_push", "try_push_rv", "try_emplace", "unchecked_push", "unchecked_push_rv",
-                     "unchecked_emplace", "pop", "clear", "copy_ctor", "move_ctor"]
+                     "unchecked_emplace", "pop", "clear", "copy_ctor", "move_ctor", "try_push_alias", "try_emplace_alias",
+                     "unchecked_push_alias", "unchecked_emplace_alias"]
         if interleave:
             cands = UNARY_CANDS[ty]
         op = rnd.choice(cands)
@@ -454,6 +543,39 @@ def rand_history(rnd, ty, cap, kind, length, big, interleave=False):
             x = val()
             emit("%s %s x=%d" % (op, o, x), op)
             d.append(x)
+        elif op in ("push_alias", "emplace_back_alias"):
+            if room <= 0 or n == 0:
+                continue
+            i = rnd.randrange(n)
+            emit("%s %s i=%d" % (op, o, i), op)
+            d.append(d[i])
+        elif op in ("push_top", "emplace_top"):
+            if room <= 0 or n == 0:
+                continue
+            emit("%s %s" % (op, o), op)
+            d.append(d[-1])
+        elif op in ("insert_alias", "emplace_alias"):
+            if room <= 0 or n == 0:
+                continue
+            p = rnd.choice([0, n, rnd.randint(0, n)])
+            i = rnd.choice([n - 1, rnd.randrange(n), rnd.randrange(n)])
+            emit("%s %s pos=%d i=%d" % (op, o, p, i), op)
+            d.insert(p, d[i])
+        elif op == "insert_fill_alias":
+            if n == 0:
+                continue
+            p = rnd.choice([0, n, rnd.randint(0, n)])
+            c = rnd.choice([0, room, rnd.randint(0, room), min(room, 1), min(room, 2)])
+            i = rnd.choice([n - 1, rnd.randrange(n), rnd.randrange(n)])
+            emit("insert_fill_alias %s pos=%d n=%d i=%d" % (o, p, c, i), op)
+            d[p:p] = [d[i]] * c
+        elif op == "resize_val_alias":
+            if n == 0:
+                continue
+            c = rnd.choice([0, cap, n, rnd.randint(0, cap), max(n - 1, 0), min(n + 1, cap)])
+            i = rnd.randrange(n)
+            emit("resize_val_alias %s n=%d i=%d" % (o, c, i), op)
+            m.o[k] = d[:c] + [d[i]] * (c - n)
         elif op in ("try_push", "try_push_rv", "try_emplace"):
             x = val()
             emit("%s %s x=%d" % (op, o, x), op + ("/full" if room <= 0 else ""))
@@ -465,6 +587,19 @@ def rand_history(rnd, ty, cap, kind, length, big, interleave=False):
             x = val()
             emit("%s %s x=%d" % (op, o, x), op)
             d.append(x)
+        elif op in ("try_push_alias", "try_emplace_alias"):
+            if n == 0:
+                continue
+            i = rnd.randrange(n)
+            emit("%s %s i=%d" % (op, o, i), op + ("/full" if room <= 0 else ""))
+            if room > 0:
+                d.append(d[i])
+        elif op in ("unchecked_push_alias", "unchecked_emplace_alias"):
+            if n == 0 or room <= 0:
+                continue
+            i = rnd.randrange(n)
+            emit("%s %s i=%d" % (op, o, i), op)
+            d.append(d[i])
         elif op == "pop":
             if n == 0:
                 continue
@@ -569,6 +704,15 @@ def rand_history(rnd, ty, cap, kind, length, big, interleave=False):
     return lines, tags
 
 
+def kinds_for(ty, cap):
+    """element kinds the harness instantiates for the type at this capacity"""
+    if ty == "sv":
+        return ["int", "nt", "hd"] + (["kp"] if cap in KP_CAPS else [])
+    if ty == "stk":
+        return ["int", "nt"] + (["kp"] if cap in KP_STK_CAPS else [])
+    return ["int", "nt"]
+
+
 def generate(tier, seed):
     rnd = random.Random(seed)
     thorough = tier == "thorough"
@@ -584,7 +728,7 @@ def generate(tier, seed):
     for i in range(nrand):
         ty = rnd.choice(["sv", "sv", "sv", "stk", "ipv"])
         cap = rnd.choice([0, 1, 2, 3, 4, 4, 7, 7] if ty != "stk" else STK_CAPS)
-        kind = rnd.choice(["int", "nt", "hd"] if ty == "sv" else ["int", "nt"])
+        kind = rnd.choice(kinds_for(ty, cap))
         lines, tags = rand_history(rnd, ty, cap, kind, rnd.randint(1, 40), False)
         add(lines, "%s/rand" % ty)
         for t in tags:
@@ -593,7 +737,7 @@ def generate(tier, seed):
     for i in range(40000 if thorough else 2500):
         ty = rnd.choice(["sv", "sv", "stk", "ipv"])
         cap = rnd.choice([1, 2, 3, 4, 4, 7, 7] if ty != "stk" else [1, 3, 4])
-        kind = rnd.choice(["int", "nt", "hd"] if ty == "sv" else ["int", "nt"])
+        kind = rnd.choice(kinds_for(ty, cap))
         lines, tags = rand_history(rnd, ty, cap, kind, rnd.randint(2, 16), False, interleave=True)
         add(lines, "%s/interleave" % ty)
         for t in tags:
@@ -702,6 +846,20 @@ LEVEL_TEXT = ("Proved in Lean 4 (no size bound, all capacities < 2^64, induction
               "size <= capacity and the capacity itself, and produces exactly the contents, iterator offset, "
               "count, pointer and the six comparison results that the list semantics of std::vector prescribe; "
               "try_push_back on a full inplace_vector returns null and changes nothing. "
+              "Aliasing arguments (insert_alias_eq, insertFill_alias_eq, push_alias_eq, resize_alias_eq, alias_spec, "
+              "alias_members_generalise): v.insert(pos, v[i]), v.insert(pos, n, v[i]), v.emplace(pos, v[i]), v.push_back(v[i]), "
+              "v.emplace_back(v[i]), v.resize(n, v[i]), stack push(top()) / emplace(top()) and inplace_vector "
+              "try_push_back(c[i]) / unchecked_push_back(c[i]) / the emplace forms (ipv_push_alias_eq) are operations of the model "
+              "language and of the history theorem; the model reads the argument through the reference in the buffer state "
+              "in which the code reads it, and the theorems say the result is that of the same call with a copy of the "
+              "element taken before the call; assign(n, v[i]) is excluded by the standard and the model shows why "
+              "(assign_alias_reads_destroyed). "
+              "Relational operators (relOps_refines, relOps_refines_strict_weak, kinds_strict_weak, relOps_refines_kinds): for "
+              "an element type with any asymmetric operator< (every strict weak order) and any operator==, nothing assumed "
+              "between them, == / != as derived from equal (through == alone) and < <= > >= as derived from "
+              "lexicographical_compare (through < alone, a <= b := !(b < a)) equal operator== and the operator<=> of "
+              "[container.opt.reqmts] with synth-three-way; that a <= b is also a < b || a == b holds only for a total order "
+              "consistent with == (relOps_total_order, relOps_refines_nat). "
               "Observers (observers_refine, observers_refine_ipv_stk, observers_zero_capacity): size/empty/full/capacity/max_size, "
               "the begin..end and rbegin..rend walks, data()[i], operator[] / front / back / top through detail::index and its "
               "contract check are model functions of their own and equal length / = [] / length = capacity / the list / its "
@@ -734,8 +892,10 @@ LEVEL_TEXT = ("Proved in Lean 4 (no size bound, all capacities < 2^64, induction
               "loop (insert = append then the swap-cycle rotate; erase = move down, destroy, shrink; erase_if = remove_if + "
               "erase) and is compared with the implementation on every run under ASan/UBSan: exhaustively for all content "
               "states over three values at capacity 0..3 with every member, position, count and overload and every pair of "
-              "states for copy/move/swap/compare, for int, a non-trivial class (both storage implementations) and a handle "
-              "class (static_vector), plus random 40-step histories and interleaved copy/source histories at capacities up to 7, "
+              "states for copy/move/swap/compare, for int, a non-trivial class (both storage implementations), a handle "
+              "class (static_vector) and a key/payload pair whose == is finer than its <-equivalence (static_vector, stack: the "
+              "relational operators on every ordered pair of states), every reference-taking member with every element of the "
+              "vector itself as argument, plus random 40-step histories and interleaved copy/source histories at capacities up to 7, "
               "and deterministic walks plus random 10-step histories at the "
               "254/255/256 size-type boundary; the spec is validated against libstdc++ on the same histories.")
 LEVEL_NOTE = ("Trusted: Lean kernel + propext/Classical.choice/Quot.sound; fidelity of the hand model outside the explored "
